@@ -67,3 +67,37 @@ func H_C11_sr_sqrt() { c11sr(2, false) }
 // H_C11_sr_power: symbolic m in (0,1], pow by contract.
 //vsym:prop=C11 tier=quick ints=int floats=real timeout=120
 func H_C11_sr_power() { c11sr(0, false) }
+
+// c11srBias: one timestep with a NON-ZERO inflow bias inside the stability limit 2*k*bias <= dt
+// and a linear storage-discharge relation (m = 1, for which storageRouting derives Klimit = k,
+// Qlimit = Koffset = 0): non-negativity and the water balance (the storage-discharge relation is
+// only claimed for bias 0).
+func c11srBias(withEvap bool) {
+	vsym.Summarise("FindRoot")
+	inflow, lateral := vsym.Float64("inflow"), vsym.Float64("lateral")
+	prevQi, prevOut, prevS := vsym.Float64("prevQi"), vsym.Float64("prevOutflow"), vsym.Float64("prevStorage")
+	k, area, dead, dt := vsym.Float64("k"), vsym.Float64("area"), vsym.Float64("deadStorage"), vsym.Float64("dt")
+	bias := vsym.Float64("bias")
+	vsym.Assume(inflow >= 0 && lateral >= 0 && prevS >= 0 && prevOut >= 0)
+	vsym.Assume(k > 0 && area >= 0 && dead >= 0 && dt >= 1 && dt <= 86400)
+	vsym.Assume(bias >= 0.001 && bias <= 0.5 && 2*k*bias <= dt)
+	evapRate := 0.0
+	if withEvap {
+		evapRate = vsym.Float64("netEvapRate")
+	}
+	_, outflow, storage := calcOutflow(0, inflow, lateral, bias, prevQi, prevOut, prevS, evapRate, area, dead, dt, 1.0, k, 0.0, k, 0.0)
+	vsym.Reach("returned")
+	vsym.Assert(outflow >= 0, "outflow-nonnegative")
+	vsym.Assert(storage >= 0, "storage-nonnegative")
+	evapFlux := math.Min(math.Max(0, prevS)/dt+inflow, area*evapRate)
+	tol := 2 * massBalanceLimit
+	vsym.AssertNear(storage-prevS, (inflow+lateral-outflow-evapFlux)*dt, tol, 1e-9, "water-balance-closes")
+}
+
+// H_C11_sr_bias: m = 1, inflow bias in [0.001, 0.5] within the stability limit, no evaporation.
+//vsym:prop=C11 tier=quick ints=int floats=real timeout=120
+func H_C11_sr_bias() { c11srBias(false) }
+
+// H_C11_sr_bias_evap: same with an arbitrary net evaporation rate.
+//vsym:prop=C11 tier=quick ints=int floats=real timeout=120
+func H_C11_sr_bias_evap() { c11srBias(true) }
